@@ -224,7 +224,7 @@ Section Contract.
     (forall v, has_type e v -> guard e v -> rt e v) ->
     Forall (has_type e) l -> Forall (survives F fzero fis_zero e) l -> Forall (ptr_ok e) l ->
     exists js, enc_list num F (enc e) l = Ok js /\
-               dec_list num F (dec e) (zero_of e) js = Ok (l, None).
+               dec_list num F (dec e) (zero_of e) js [] = Ok (l, None).
   Proof.
     intros IH Ht. induction Ht as [|v l Hv _ IHl]; intros Hs Hp.
     - exists []. split; reflexivity.
